@@ -112,6 +112,16 @@ func v1Random(c *Ctx, kind string) (v1.Claims, nkeys.KeyPair) {
 		oc.AccountServerURL = []string{"", "http://h.example/jwt/v1", "nats://x"}[c.R.Intn(3)]
 	}
 	roles := v1Roles[kind]
+	// mostly a signer of a permitted role; sometimes the claim's own subject key (self-signed, whatever its role)
+	// or a key of an arbitrary role: whatever Encode emits its own decoder must accept
+	if r, ok := v1SubjectRole[kind]; ok && c.R.Chance(20) {
+		c.Count("self-signed:" + kind)
+		return cl, kpN(r, n)
+	}
+	if c.R.Chance(10) {
+		c.Count("arbitrary-signer-role")
+		return cl, kpN([]byte{'O', 'A', 'U', 'N', 'C'}[c.R.Intn(5)], c.R.Intn(4))
+	}
 	return cl, kpN(roles[c.R.Intn(len(roles))], c.R.Intn(4))
 }
 
@@ -152,7 +162,7 @@ func v1Check(c *Ctx, kind, tok string, rp c19Replay, wantDump string) (accepted 
 }
 
 func runC19(c *Ctx) {
-	c.Res.Rule = "version-1 claims of all seven kinds from the reflective generator (every field set or not, int64 edges, special strings) x every signer role the v1 library permits: v1 Encode -> own decoder: all fields preserved (reflective compare modulo nil/empty); every token also through the Lean model of v1 Encode and Decode; single-character substitutions / insertions / deletions in payload and signature (sampled in quick, exhaustive positions on a pool in thorough): refused or identical content; alterations that leave the base64url alphabet (padding, +, /, line breaks, blanks in every segment); forged wrong-role issuers (correctly signed; also naming themselves as subject); v2-header tokens. non-trivial = distinct tokens."
+	c.Res.Rule = "version-1 claims of all seven kinds from the reflective generator (every field set or not, int64 edges, special strings) x every signer role the v1 library permits (and, in a fifth of the cases, the claim's own subject key - self-signed - or a key of an arbitrary role: a token Encode emits must be accepted by its own decoder): v1 Encode -> own decoder: all fields preserved (reflective compare modulo nil/empty); every token also through the Lean model of v1 Encode and Decode; single-character substitutions / insertions / deletions in payload and signature (sampled in quick, exhaustive positions on a pool in thorough): refused or identical content; alterations that leave the base64url alphabet (padding, +, /, line breaks, blanks in every segment); forged wrong-role issuers (correctly signed; also naming themselves as subject); v2-header tokens. non-trivial = distinct tokens."
 	type vt struct{ kind, tok, dump string }
 	var pool []vt
 	n := c.N(400, 40000)
